@@ -141,7 +141,16 @@ def main(argv):
         for fn in inl:
             inlined.setdefault(fp(fn), []).append(g)
     rows = []
-    for rel, path in [(r, os.path.join(REPO, r)) for r in lib_sources()] + external_sources(errors):
+    sources = [(r, os.path.join(REPO, r)) for r in lib_sources()] + external_sources(errors)
+    # third-party crates whose registry source a function translator read (tools/thirdparty.py): listed as
+    # extern/<crate>-<version>/<file>
+    import thirdparty
+    seen = set(p for _r, p in sources)
+    for name, version, trel, path in thirdparty.READS:
+        if path not in seen:
+            seen.add(path)
+            sources.append(("extern/%s-%s/%s" % (name, version, trel), path))
+    for rel, path in sources:
         src = open(path, encoding="utf-8").read()
         fsha = sha(src)
         try:
@@ -190,11 +199,12 @@ def main(argv):
         crate = r["file"].split("/")[1]
         summary.setdefault(crate, {}).setdefault(r["class"], 0)
         summary[crate][r["class"]] += 1
-    total = {}
-    for c in summary.values():
-        for k, v in c.items():
-            total[k] = total.get(k, 0) + v
-    out = {"repo": REPO, "generator_errors": errors, "total": total, "per_crate": summary, "functions": rows}
+    total = {}          # the workspace's own crates
+    extern = {}         # third-party crates translated from the cargo registry
+    for r in rows:
+        t = extern if r["file"].startswith("extern/") else total
+        t[r["class"]] = t.get(r["class"], 0) + 1
+    out = {"repo": REPO, "generator_errors": errors, "total": total, "third_party": extern, "per_crate": summary, "functions": rows}
     args = argv[1:]
     if "--json" in args:
         json.dump(out, open(args[args.index("--json") + 1], "w"), indent=1)
@@ -205,7 +215,7 @@ def main(argv):
         for r in rows:
             if r["class"] in ("untied", "data"):
                 print("%-8s %-45s %s %s" % (r["class"], r["file"][7:], r["fn"], ",".join(r["by"])))
-    print(json.dumps({"total": total, "per_crate": summary, "generator_errors": errors}, indent=1))
+    print(json.dumps({"total": total, "third_party": extern, "per_crate": summary, "generator_errors": errors}, indent=1))
     return 0
 
 
